@@ -127,7 +127,7 @@ struct Parse {
     char subj_fc[64], subj_ti[64], subj_rt[64];
     Pool& pool;
     Counts& cnt;
-    std::size_t i_fc[3], i_ti[3][3], i_rt[2];
+    std::size_t i_fc[3], i_ti[3][3], i_rt[2], i_fcd, i_tid;
     static constexpr T sentinel = (T)0x5A;
 
     Parse(char const* name, Pool& p, Counts& c) : pool(p), cnt(c)
@@ -141,6 +141,8 @@ struct Parse {
             i_fc[r] = c.slot(std::string(subj_fc) + "|" + res[r]);
             for (unsigned o = 0; o < 3; ++o) { i_ti[o][r] = c.slot(std::string(subj_ti) + "|" + opt[o] + "|" + res[r]); }
         }
+        i_fcd   = c.slot(std::string(subj_fc) + "|default-base");
+        i_tid   = c.slot(std::string(subj_ti) + "|default-base");
         i_rt[0] = c.slot(std::string(subj_rt) + "|from_chars(to_chars(x))");
         i_rt[1] = c.slot(std::string(subj_rt) + "|to_integer(from_integer(x))");
     }
@@ -229,8 +231,59 @@ struct Parse {
         }
     }
 
+    // ---- overloads with the defaulted base (10): from_chars(first,last,value) and to_integer<T>(str)
+    void default_base_one(std::string const& s)
+    {
+        T sv           = sentinel;
+        char const* sp = s.data();
+        auto const sr  = std::from_chars(sp, sp + s.size(), sv);
+        Ec const sec   = ec_of(sr.ec);
+        Shape sh       = analyse(s, 10);
+        Shape const shws = sh;
+        if (sh.ws) {
+            sh      = Shape{};
+            sh.lead = "ws";
+        }
+        char sit[96];
+        make_sit(sit, sizeof sit, 10, sh, false, sec, sr.ptr == sp + s.size());
+        vf::Buf<char>& b = pool.view(s);
+        vf::crumb(subj_fc, "from_chars(first,last,value)", sit, "input=%s", show(s).c_str());
+        T ev          = sentinel;
+        auto const er = etl::from_chars(b.data(), b.data() + s.size(), ev);
+        cnt.bump(i_fcd);
+        if (eq_ec("ec", ec_of_etl(er.ec), sec)) {
+            if (ev != sv) {
+                vf::diverge(sec == Ec::ok ? "value:differs" : "value:modified-on-error", vstr(ev), vstr(sv));
+            } else if (er.ptr - b.data() != sr.ptr - sp) {
+                char sym[64];
+                vf::diverge(ptr_sym(er.ptr - b.data(), sr.ptr - sp, sym, sizeof sym, "ptr"), vf::to_s(er.ptr - b.data()), vf::to_s(sr.ptr - sp));
+            }
+        }
+        // to_integer<T>(str): default options (skip whitespace, check overflow), default base
+        T sv2          = sentinel;
+        auto const sr2 = std::from_chars(sp + shws.ws, sp + s.size(), sv2);
+        Ec const sec2  = ec_of(sr2.ec);
+        make_sit(sit, sizeof sit, 10, shws, true, sec2, sr2.ptr == sp + s.size());
+        vf::crumb(subj_ti, "to_integer<skip-ws,check>(str)", sit, "input=%s", show(s).c_str());
+        auto const r = etl::strings::to_integer<T>(etl::string_view{b.data(), s.size()});
+        cnt.bump(i_tid);
+        Ec const oec = r.error == EI::none ? Ec::ok : (r.error == EI::invalid_input ? Ec::invalid_argument : (r.error == EI::overflow ? Ec::result_out_of_range : Ec::other));
+        if (!eq_ec("error", oec, sec2)) { return; }
+        if (sec2 == Ec::ok && r.value != sv2) {
+            vf::eq_int("value", (long long)r.value, (long long)sv2);
+            return;
+        }
+        long long const xe = sec2 == Ec::invalid_argument ? 0 : (long long)(sr2.ptr - sp);
+        long long const oe = r.end - b.data();
+        if (oe != xe) {
+            char sym[64];
+            vf::diverge(ptr_sym(oe, xe, sym, sizeof sym, "end"), vf::to_s(oe), vf::to_s(xe));
+        }
+    }
+
     void parse_all(std::string const& s, int base)
     {
+        if (base == 10) { default_base_one(s); }
         from_chars_one(s, base);
         to_integer_one<true, true>(s, base);
         to_integer_one<false, true>(s, base);
